@@ -103,7 +103,7 @@ GsubLfp(T, top, U, S) == LET S2 == GsubStep(T, top, U, S) IN IF S2 = S THEN S EL
 (* The request, resolved against the font *)
 Universe(font) == 1..font.n
 ReqGlyphs(font, req) == SeqRange(req.glyphs) \cap Universe(font)
-CmapGlyphs(font, us) == {font.cmap[k][2] : k \in {k \in 1..Len(font.cmap) : Has(us, font.cmap[k][1])}} \cap Universe(font)
+CmapGlyphs(font, us) == LET U == SeqRange(us) IN {font.cmap[k][2] : k \in {k \in 1..Len(font.cmap) : font.cmap[k][1] \in U}} \cap Universe(font)
 Specials(font, opts) == (IF opts.notdef THEN {1} ELSE {})
                         \cup (IF opts.recommended /\ font.glyf THEN 1..Min2(4, font.n) ELSE {})
 StartSet(font, req, opts) == ReqGlyphs(font, req) \cup CmapGlyphs(font, req.unicodes) \cup Specials(font, opts)
@@ -184,7 +184,8 @@ PruneTable(tb) ==
   IN [lookups |-> [k \in 1..Len(keep) |-> fixlk(T[keep[k]])], fl |-> SelectSeq(fl1, LAMBDA e : e[4] # <<>>)]
 
 SubsetFont(font, req, reqG, gsubS, kept, ord, flS, flP) ==
-  LET keepc == SelectSeq(font.cmap, LAMBDA e : e[2] \in kept /\ (e[2] \in reqG \/ Has(req.unicodes, e[1])))
+  LET us == SeqRange(req.unicodes)
+      keepc == SelectSeq(font.cmap, LAMBDA e : e[2] \in kept /\ (e[2] \in reqG \/ e[1] \in us))
       compc == SelectSeq(font.comp, LAMBDA e : e[1] \in kept)
   IN [n |-> Len(ord), glyf |-> font.glyf,
       cmap |-> [k \in 1..Len(keepc) |-> <<keepc[k][1], NewOf(ord, keepc[k][2])>>],
@@ -317,13 +318,14 @@ GrowOnly == [][/\ glyphs \subseteq glyphs' /\ requested \subseteq requested' /\ 
                /\ gsubed \subseteq gsubed' /\ colred \subseteq colred' /\ glyfed \subseteq glyfed' /\ retained \subseteq retained']_vars
 Done == pc = "done"
 
-RequestedPresentF(f, r, o, kept, ord, res) ==
-  /\ ReqGlyphs(f, r) \subseteq kept
-  /\ \A g \in kept : NewOf(ord, g) # 0
-  /\ \A k \in 1..Len(f.cmap) : Has(r.unicodes, f.cmap[k][1]) /\ f.cmap[k][2] \in Universe(f) =>
-        /\ f.cmap[k][2] \in kept
-        /\ \E j \in 1..Len(res.cmap) : res.cmap[j] = <<f.cmap[k][1], NewOf(ord, f.cmap[k][2])>>
-RequestedPresent == Done => RequestedPresentF(font, req, opts, retained, order, out)
+RequestedPresentF(f, r, kept, nw(_), rescmap) ==       \* nw(g) = new glyph number of g (0 = none)
+  LET us == SeqRange(r.unicodes)
+      rc == SeqRange(rescmap)
+  IN /\ ReqGlyphs(f, r) \subseteq kept
+     /\ \A g \in kept : nw(g) # 0
+     /\ \A k \in 1..Len(f.cmap) : (f.cmap[k][1] \in us /\ f.cmap[k][2] \in Universe(f)) =>
+           f.cmap[k][2] \in kept /\ <<f.cmap[k][1], nw(f.cmap[k][2])>> \in rc
+RequestedPresent == Done => RequestedPresentF(font, req, retained, LAMBDA g : NewOf(order, g), out.cmap)
 
 ClosureSufficient == Done => MinClosure(font, req, opts) \subseteq retained
 LfpIsLeast == pc = "request" => MinClosure(font, req, opts) = MinClosureDecl(font, req, opts)   \* the two definitions agree
@@ -336,8 +338,8 @@ NoDanglingF(res, kept, ord) ==
   /\ \A k \in 1..Len(res.L.gsub.fl) : SeqRange(res.L.gsub.fl[k][4]) \subseteq 1..Len(res.L.gsub.lookups)
 NoDangling == Done => NoDanglingF(out, retained, order)
 
-RetainGidsF(o, kept, ord) == o.retain => \A g \in kept : NewOf(ord, g) = g
-RetainGids == Done => RetainGidsF(opts, retained, order)
+RetainGidsF(o, kept, nw(_)) == o.retain => \A g \in kept : nw(g) = g
+RetainGids == Done => RetainGidsF(opts, retained, LAMBDA g : NewOf(order, g))
 OrderWellFormed == Done => /\ \A i, j \in 1..Len(order) : i < j => order[i] < order[j]
                            /\ SeqRange(order) = retained \cup emptied /\ retained \cap emptied = {}
 
